@@ -129,7 +129,7 @@ func buildSimFile() protoreflect.FileDescriptor {
 		Name:       proto.String("sim/v1/sim.proto"),
 		Package:    proto.String("sim.v1"),
 		Syntax:     proto.String("proto3"),
-		Dependency: []string{"vanguard/test/v1/test.proto", "google/api/annotations.proto"},
+		Dependency: []string{"vanguard/test/v1/test.proto", "google/api/annotations.proto", "google/api/httpbody.proto"},
 		Service: []*descriptorpb.ServiceDescriptorProto{
 			{
 				Name: proto.String("SimService"),
@@ -158,6 +158,8 @@ func buildSimFile() protoreflect.FileDescriptor {
 					method("Bytes", pv, pv, false, false, httpRuleOpt(get("/p/v1/bytes/{bytes_value}/{int64_value}/{enum_value}"), 0)),
 					method("Del", pv, pv, false, false, httpRuleOpt(&annotations.HttpRule{Pattern: &annotations.HttpRule_Delete{Delete: "/p/v1/del/{uint64_value}/{timestamp}"}}, 0)),
 					method("Plain", pv, pv, false, false, nil),
+					// the whole request (and response) is a google.api.HttpBody: raw bytes with their own content type
+					method("RawBody", ".google.api.HttpBody", ".google.api.HttpBody", false, false, httpRuleOpt(post("/p/v1/raw", "*"), 0)),
 				},
 			},
 			{
